@@ -1,6 +1,102 @@
-import HranoModel.Model.Options
-import HranoModel.Model.Sink
-import HranoModel.Model.Chan
-/-! C10 property theorems (statements only in this file; helper lemmas live in Lemmas/) -/
+import HranoModel.Lemmas.Run
+/-!
+C10 — unreadable input is an error, never a silently shortened report.
+
+Property theorems only (helper lemmas: `Lemmas/Parse.lean`, `Lemmas/Run.lean`).  A read fault is
+a reader that serves the first `k ≤ |file|` bytes and then returns an error; an over-long line is
+one of `bufio.MaxScanTokenSize` bytes or more.  The exact chunking of `bufio.Scanner` is modelled
+only as "which lines are delivered" (validated at every offset by the correspondence check).
+-/
 namespace Hrano.C10
+open Hrano Hrano.App
+
+/-- a reader that fails at any offset inside (or at the end of) the file makes the scan fail -/
+theorem read_fault_is_error (cc : UInt8) (s : Bytes) (k : Nat) (hk : k ≤ s.length) :
+    (Parser.eventsFaulty cc s (some k)).2 ≠ none := by
+  simpa [Parser.eventsFaulty] using Scanner.scan_fail_of_fault s k hk
+
+/-- a line of 64 KiB or more, at any position, makes the scan fail -/
+theorem long_line_is_error (cc : UInt8) (s : Bytes) (l : Bytes) (hm : l ∈ Scanner.rawLines s)
+    (hl : l.length ≥ PConst.maxToken) : (Parser.eventsFaulty cc s none).2 = some .tooLong := by
+  simpa [Parser.eventsFaulty] using Scanner.scan_fail_of_long s none l hm hl (by simp)
+
+/-- **Parser level.**  If `ParseStreamCallback` reports no scanner error, the reader did not fail inside the
+    file, no line was over-long, and the callback saw exactly the events of the complete file. -/
+theorem success_implies_complete (cc : UInt8) (s : Bytes) (fa : Option Nat) (h : (Parser.eventsFaulty cc s fa).2 = none) :
+    (Parser.eventsFaulty cc s fa).1 = Parser.events cc s
+    ∧ (∀ k, fa = some k → s.length < k)
+    ∧ ∀ l ∈ Scanner.rawLines s, l.length < PConst.maxToken := by
+  have hs : (Scanner.scan s fa).2 = none := by simpa [Parser.eventsFaulty] using h
+  exact ⟨Parser.eventsFaulty_ok cc s fa h, (Scanner.scan_ok s fa hs).2⟩
+
+/-- **Command level.**  Whenever a command succeeds under read faults `rf`, its whole outcome — output
+    and status — is that of the run without any fault: every heading and entry of every file it reads
+    has been taken into account.  (Equivalently: a fault that costs any input makes the command fail.) -/
+theorem command_success_implies_complete (c : Cmd) (o : Opts) (fs : Files) (rf : ReadFaults)
+    (ord : List Bytes → List Bytes) (h : (run c o fs rf ord).err = none) :
+    run c o fs rf ord = run c o fs [] ord := by
+  cases c with
+  | reg => exact withBookAndLog_ok o fs rf ord _ h
+  | bal => exact withBookAndLog_ok o fs rf ord _ h
+  | reportTotals => exact withBookAndLog_ok o fs rf ord _ h
+  | reportUnresolved => exact withBookAndLog_ok o fs rf ord _ h
+  | reportQuantity desc => exact withLog_ok o fs rf _ h
+  | csvLog => exact withLog_ok o fs rf _ h
+  | print => exact withLog_ok o fs rf _ h
+  | summary b e => exact withBookAndLog_ok _ fs rf ord _ h
+  | reportElementTotal x desc => exact withBook_ok o fs rf ord _ h
+  | csvDatabaseResolved => exact withBook_ok o fs rf ord _ h
+  | csvDatabase =>
+    simp only [run] at h ⊢
+    cases hp : parsed fs rf o.dbFile with
+    | error e => rw [hp] at h; cases h
+    | ok p =>
+      rw [hp] at h
+      rw [parsed_ok fs rf _ p hp (csvDatabaseOut_ok_se p h)]
+  | lint file silent =>
+    simp only [run] at h ⊢
+    cases hp : parsed fs rf file with
+    | error e => rw [hp] at h; cases h
+    | ok p =>
+      rw [hp] at h
+      rw [parsed_ok fs rf _ p hp (lintOut_ok_se silent p h)]
+  | stats =>
+    simp only [run] at h ⊢
+    cases hpl : parsed fs rf o.logFile with
+    | error e => rw [hpl] at h; cases h
+    | ok pl =>
+      rw [hpl] at h
+      simp only at h
+      cases hf1 : firstErr pl.1 with
+      | some e => rw [hf1] at h; cases h
+      | none =>
+        rw [hf1] at h
+        cases hs1 : pl.2 with
+        | some e => rw [hs1] at h; cases h
+        | none =>
+          rw [hs1] at h
+          simp only at h
+          rw [parsed_ok fs rf _ pl hpl hs1]
+          simp only [hf1, hs1]
+          cases hpd : parsed fs rf o.dbFile with
+          | error e => rw [hpd] at h; cases h
+          | ok pd =>
+            rw [hpd] at h
+            simp only at h
+            cases hf2 : firstErr pd.1 with
+            | some e => rw [hf2] at h; cases h
+            | none =>
+              rw [hf2] at h
+              cases hs2 : pd.2 with
+              | some e => rw [hs2] at h; cases h
+              | none =>
+                rw [parsed_ok fs rf _ pd hpd hs2]
+
+/-! non-vacuity: a two-record file; the reader failing after the first record is an error, while the
+    complete read succeeds with both records -/
+def demo : Bytes := Bytes.ofString "a:\n  x: 1\nb:\n  y: 2\n"
+example : (Parser.eventsFaulty 35 [97, 58, 10, 32, 32, 120, 58, 32, 49, 10, 98, 58, 10, 32, 32, 121, 58, 32, 50, 10] (some 10)).2 = some .read := by decide +kernel
+example : ((Parser.eventsFaulty 35 [97, 58, 10, 32, 32, 120, 58, 32, 49, 10, 98, 58, 10, 32, 32, 121, 58, 32, 50, 10] none).1.length,
+           (Parser.eventsFaulty 35 [97, 58, 10, 32, 32, 120, 58, 32, 49, 10, 98, 58, 10, 32, 32, 121, 58, 32, 50, 10] none).2) = (2, none) := by decide +kernel
+
 end Hrano.C10
